@@ -180,3 +180,146 @@ func ghost_ParseFile_reserveFunc() {
 //
 //kvc:ghost (*Parser).ParseFile after "name := varPool.GetName(baseName)"
 func ghost_ParseFile_importNamed() { gNamesHandedOut++ }
+
+// ---------------------------------------------------------------------------
+// C05 / C06 / C10 (front end): what the parser reads off a provider's TYPE. kessoku encodes a declaration in the Go
+// type of the provider expression - fnProvider[F], asyncProvider[_, P], bindProvider[I, P], structProvider[T] - and
+// parseProviderType recurses through the wrappers. The contract is stated relative to the recursive call (ghost
+// snapshot of the inner result): a wrapper keeps everything it does not mean to change.
+// ---------------------------------------------------------------------------
+
+var (
+	gInnerAsync    bool
+	gInnerErr      bool
+	gInnerStruct   bool
+	gInnerType     types.Type
+	gInnerRequires []types.Type
+	gInnerProvides [][]types.Type
+)
+
+//kvc:ghost (*Parser).parseProviderType after "result, err := p.parseProviderType(pkg, internalProviderType, varPool)"
+func ghostInnerResult(result *parseProviderTypeResult, err error) {
+	if err == nil {
+		gInnerAsync = result.IsAsync
+		gInnerErr = result.IsReturnError
+		gInnerStruct = result.IsStruct
+		gInnerType = result.StructType
+		gInnerRequires = result.Requires
+		gInnerProvides = result.Provides
+	}
+}
+
+// wrapperName: the name of the (kessoku) generic type a provider expression has
+func wrapperName(t types.Type) string { return vs.As[*types.Named](t).Obj().Name() }
+
+// paramsOf: the parameter variables of the function a Provide(f) expression wraps, in order
+func paramsOf(t types.Type) []*types.Var {
+	return vs.YieldSeq(vs.As[*types.Signature](vs.As[*types.Named](t).TypeArgs().At(0)).Params().Variables())
+}
+
+// keepsInnerDeclaration: requirements, fallibility and struct expansion are those of the wrapped provider
+func keepsInnerDeclaration(r *parseProviderTypeResult) bool {
+	return r.IsReturnError == gInnerErr && r.IsStruct == gInnerStruct && r.StructType == gInnerType &&
+		len(r.Requires) == len(gInnerRequires) &&
+		vs.Forall(len(r.Requires), func(i int) bool { return r.Requires[i] == gInnerRequires[i] })
+}
+
+// groupsExtendedBy: every result group keeps its types, in order, and gains at most the bound interface at its end
+func groupsExtendedBy(r *parseProviderTypeResult, iface types.Type) bool {
+	return len(r.Provides) == len(gInnerProvides) && vs.Forall(len(r.Provides), func(i int) bool {
+		return vs.Forall(len(gInnerProvides[i]), func(j int) bool { return j < len(r.Provides[i]) && r.Provides[i][j] == gInnerProvides[i][j] }) &&
+			(len(r.Provides[i]) == len(gInnerProvides[i]) ||
+				(len(r.Provides[i]) == len(gInnerProvides[i])+1 && r.Provides[i][len(gInnerProvides[i])] == iface))
+	})
+}
+
+func groupsKept(r *parseProviderTypeResult) bool {
+	return len(r.Provides) == len(gInnerProvides) && vs.Forall(len(r.Provides), func(i int) bool {
+		return len(r.Provides[i]) == len(gInnerProvides[i]) &&
+			vs.Forall(len(r.Provides[i]), func(j int) bool { return r.Provides[i][j] == gInnerProvides[i][j] })
+	})
+}
+
+//kvc:axiom
+func axiomTypeListsAndTuples() bool {
+	return vs.ForallRef(func(l *types.TypeList) bool { return l.Len() >= 0 }) &&
+		vs.ForallRef(func(t *types.Tuple) bool { return t.Len() >= 0 && t.Len() < 1<<30 })
+}
+
+//kvc:contract (*Parser).parseProviderType
+func contract_Parser_parseProviderType(p *Parser, pkg *packages.Package, providerType types.Type, varPool *VarPool) (result *parseProviderTypeResult, err error) {
+	vs.Ensures("result_or_error", (err == nil) == (result != nil))
+	vs.Ensures("fresh_result", vs.Implies(err == nil, !vs.Old(vs.IsAllocated(result))))
+	// Async(...) marks the provider Async and changes nothing else
+	vs.Ensures("async_wrapper_marks_async_only", vs.Implies(err == nil && wrapperName(providerType) == "asyncProvider",
+		result.IsAsync && keepsInnerDeclaration(result) && groupsKept(result)))
+	// Bind[I](...) adds I to the groups that implement it and changes nothing else - in particular not the Async mark
+	vs.Ensures("bind_wrapper_keeps_the_inner_declaration", vs.Implies(err == nil && wrapperName(providerType) == "bindProvider",
+		result.IsAsync == gInnerAsync && keepsInnerDeclaration(result) &&
+			groupsExtendedBy(result, vs.As[*types.Named](providerType).TypeArgs().At(0))))
+	// Provide(f): synchronous, one requirement per parameter in order, singleton result groups
+	vs.Ensures("function_provider_is_plain", vs.Implies(err == nil && wrapperName(providerType) == "fnProvider", !result.IsAsync && !result.IsStruct))
+	vs.Ensures("function_provider_requires_its_parameters", vs.Implies(err == nil && wrapperName(providerType) == "fnProvider",
+		len(result.Requires) == len(paramsOf(providerType)) &&
+			vs.Forall(len(result.Requires), func(i int) bool { return result.Requires[i] == paramsOf(providerType)[i].Type() })))
+	vs.Ensures("function_provider_provides_singletons", vs.Implies(err == nil && wrapperName(providerType) == "fnProvider",
+		vs.Forall(len(result.Provides), func(i int) bool { return len(result.Provides[i]) == 1 })))
+	// Struct[T](): requires and provides T, to be expanded
+	vs.Ensures("struct_provider", vs.Implies(err == nil && wrapperName(providerType) == "structProvider",
+		result.IsStruct && !result.IsAsync && !result.IsReturnError &&
+			result.StructType == vs.As[*types.Named](providerType).TypeArgs().At(0) &&
+			len(result.Requires) == 1 && result.Requires[0] == result.StructType &&
+			len(result.Provides) == 1 && len(result.Provides[0]) == 1 && result.Provides[0][0] == result.StructType))
+	vs.Modifies(gInnerAsync, gInnerErr, gInnerStruct, gInnerType, gInnerRequires, gInnerProvides)
+	vs.Allocates()
+	return
+}
+
+//kvc:loop (*Parser).parseProviderType "for i, provide := range result.Provides"
+func inv_parseProviderType_bind(result *parseProviderTypeResult, interfaceType types.Type, kvcIdx int) {
+	vs.Invariant("result", result != nil && vs.IsAllocated(result) && result.IsAsync == gInnerAsync && keepsInnerDeclaration(result))
+	vs.Invariant("groups_count", len(result.Provides) == len(gInnerProvides))
+	vs.Invariant("groups_done", vs.Forall(kvcIdx, func(i int) bool {
+		return vs.Forall(len(gInnerProvides[i]), func(j int) bool { return j < len(result.Provides[i]) && result.Provides[i][j] == gInnerProvides[i][j] }) &&
+			(len(result.Provides[i]) == len(gInnerProvides[i]) ||
+				(len(result.Provides[i]) == len(gInnerProvides[i])+1 && result.Provides[i][len(gInnerProvides[i])] == interfaceType))
+	}))
+	vs.Invariant("groups_todo", vs.ForallRange(kvcIdx, len(result.Provides), func(i int) bool {
+		return len(result.Provides[i]) == len(gInnerProvides[i]) &&
+			vs.Forall(len(result.Provides[i]), func(j int) bool { return result.Provides[i][j] == gInnerProvides[i][j] })
+	}))
+}
+
+//kvc:loop (*Parser).parseProviderType "for _, providedType := range provide"
+func inv_parseProviderType_bind_inner(result *parseProviderTypeResult, interfaceType types.Type, i int, provide []types.Type) {
+	vs.Invariant("result", result != nil && vs.IsAllocated(result) && result.IsAsync == gInnerAsync && keepsInnerDeclaration(result))
+	vs.Invariant("groups_count", len(result.Provides) == len(gInnerProvides) && 0 <= i && i < len(result.Provides))
+	vs.Invariant("groups_done", vs.Forall(i, func(a int) bool {
+		return vs.Forall(len(gInnerProvides[a]), func(j int) bool { return j < len(result.Provides[a]) && result.Provides[a][j] == gInnerProvides[a][j] }) &&
+			(len(result.Provides[a]) == len(gInnerProvides[a]) ||
+				(len(result.Provides[a]) == len(gInnerProvides[a])+1 && result.Provides[a][len(gInnerProvides[a])] == interfaceType))
+	}))
+	vs.Invariant("groups_todo", vs.ForallRange(i, len(result.Provides), func(a int) bool {
+		return len(result.Provides[a]) == len(gInnerProvides[a]) &&
+			vs.Forall(len(result.Provides[a]), func(j int) bool { return result.Provides[a][j] == gInnerProvides[a][j] })
+	}))
+	vs.Invariant("current", vs.SameSlice(provide, gInnerProvides[i]))
+}
+
+//kvc:loop (*Parser).parseProviderType "for v := range providerFnSig.Params().Variables()"
+func inv_parseProviderType_params(requires []types.Type, providerFnSig *types.Signature, kvcIdx int) {
+	vs.Invariant("one_per_parameter", len(requires) == kvcIdx && vs.Forall(kvcIdx, func(i int) bool {
+		return requires[i] == vs.YieldSeq(providerFnSig.Params().Variables())[i].Type()
+	}))
+}
+
+//kvc:loop (*Parser).parseProviderType "for v := range providerFnSig.Results().Variables()"
+func inv_parseProviderType_results(provides [][]types.Type) {
+	vs.Invariant("singletons", vs.Forall(len(provides), func(i int) bool { return len(provides[i]) == 1 }))
+}
+
+//kvc:ghost (*Parser).parseProviderType before "isReturnError := false"
+func ghostHintParams(requires []types.Type, providerFnSig *types.Signature, providerType types.Type) {
+	vs.Assert("hint_all_parameters_seen", len(requires) == len(vs.YieldSeq(providerFnSig.Params().Variables())))
+	vs.Assert("hint_signature_is_the_type_argument", providerFnSig == vs.As[*types.Signature](vs.As[*types.Named](providerType).TypeArgs().At(0)))
+}
